@@ -116,6 +116,15 @@ def gen_case(ctx, k):
             reacs.append({"eq": eq, "k+": stoch_gen.env_value(rng, net["environments"], [Fraction(1, 4), Fraction(1, 2), 1]),
                           "k-": stoch_gen.env_value(rng, net["environments"], [Fraction(1, 4), Fraction(1, 8), 0])})
         net["reactions"] = reacs
+    if kind == "grid" and k % 6 in (0, 2):
+        # a genuinely three-dimensional grid with at least one reflecting axis of length >= 2, diffusing species
+        w, h, d = rng.choice([(1, 1, 3), (2, 1, 2), (1, 2, 2), (1, 1, 2), (2, 1, 3), (1, 2, 3)])
+        bc = {"x": rng.choice(["reflecting", "periodical"]), "y": rng.choice(["reflecting", "periodical"]), "z": "reflecting"}
+        space = dict(space)
+        space.update({"w": w, "h": h, "d": d, "cell_env": [rng.randrange(nenv) for _ in range(w * h * d)], "boundary_conditions": bc})
+        info = dict(info, n=w * h * d)
+        for sp_ in net["species"]:
+            sp_["D"] = float(rng.choice([0.25, 0.5, 1, 2]))
     n = info["n"]
     ns = len(net["species"])
     if ns >= 3 and rng.random() < 0.3:
@@ -213,6 +222,15 @@ def gen_case(ctx, k):
             reacs.append({"eq": eq, "k+": stoch_gen.env_value(rng, net["environments"], [Fraction(1, 4), Fraction(1, 2), 1]),
                           "k-": stoch_gen.env_value(rng, net["environments"], [Fraction(1, 4), Fraction(1, 8), 0])})
         net["reactions"] = reacs
+    if kind == "grid" and k % 6 in (0, 2):
+        # a genuinely three-dimensional grid with at least one reflecting axis of length >= 2, diffusing species
+        w, h, d = rng.choice([(1, 1, 3), (2, 1, 2), (1, 2, 2), (1, 1, 2), (2, 1, 3), (1, 2, 3)])
+        bc = {"x": rng.choice(["reflecting", "periodical"]), "y": rng.choice(["reflecting", "periodical"]), "z": "reflecting"}
+        space = dict(space)
+        space.update({"w": w, "h": h, "d": d, "cell_env": [rng.randrange(nenv) for _ in range(w * h * d)], "boundary_conditions": bc})
+        info = dict(info, n=w * h * d)
+        for sp_ in net["species"]:
+            sp_["D"] = float(rng.choice([0.25, 0.5, 1, 2]))
     n = info["n"]
     ns = len(net["species"])
     if ns >= 3 and rng.random() < 0.3:
